@@ -27,6 +27,8 @@ enum Op {
     Enter,
     Prepare,
     Commit,
+    /// put_batch_unlogged: a record list fetched from external storage, applied at start-up
+    Unlogged(Vec<Kvv>),
 }
 
 #[derive(Clone, Debug, PartialEq, Eq)]
@@ -66,6 +68,7 @@ fn cop(o: &Op) -> String {
         Op::Enter => "Enter".into(),
         Op::Prepare => "Prepare".into(),
         Op::Commit => "Commit".into(),
+        Op::Unlogged(l) => format!("Unlogged {}", cdump(l)),
     }
 }
 fn cobs(o: &Obs) -> String {
@@ -112,6 +115,7 @@ fn sop(o: &Op) -> String {
         Op::Enter => "enter".into(),
         Op::Prepare => "prepare".into(),
         Op::Commit => "commit".into(),
+        Op::Unlogged(l) => format!("put_batch_unlogged [{}]", l.iter().map(skvv).collect::<Vec<_>>().join(", ")),
     }
 }
 fn sobs(o: &Obs) -> String {
@@ -165,6 +169,7 @@ fn apply<S: KVVStore>(s: &S, op: &Op) -> Obs {
         Op::Enter => unit(s.enter()),
         Op::Prepare => Obs::List(s.prepare().into_inner().into_iter().map(|(k, (v, x))| (k, v, x)).collect()),
         Op::Commit => unit(s.commit()),
+        Op::Unlogged(l) => unit(s.put_batch_unlogged(l.iter().map(|e| KVV(e.0.clone(), (e.1, e.2.clone()))).collect())),
     })
 }
 
@@ -191,9 +196,33 @@ struct Rows {
     m: (Obs, Vec<Kvv>),
     d: (Obs, Vec<Kvv>, Option<Vec<Option<u64>>>),
     c: (Obs, Vec<Kvv>, Option<Vec<Option<(u64, Vec<u8>)>>>),
+    /// CloudKVVStore<RedbKVVStore>, restarted at every reopen point
+    r: (Obs, Vec<Kvv>, Option<Vec<Option<(u64, Vec<u8>)>>>),
+}
+
+type CRow = (Obs, Vec<Kvv>, Option<Vec<Option<(u64, Vec<u8>)>>>);
+fn coq_crow(c: &CRow) -> String {
+    let view = match &c.2 {
+        None => "None".to_string(),
+        Some(v) => format!(
+            "Some {}",
+            coq_list(&v.iter().map(|x| match x {
+                None => "None".to_string(),
+                Some((n, b)) => format!("Some ({},{})", n, bytes(b)),
+            }).collect::<Vec<_>>())
+        ),
+    };
+    format!("({}, {}, {})", cobs(&c.0), cdump(&c.1), view)
+}
+fn json_crow(c: &CRow) -> Value {
+    json!([sobs(&c.0), c.1.iter().map(skvv).collect::<Vec<_>>(),
+           c.2.as_ref().map(|v| v.iter().map(|x| x.as_ref().map(|(n, b)| format!("@{}={}", n, sval(b))).unwrap_or("-".into())).collect::<Vec<_>>())])
 }
 
 impl Rows {
+    fn coq_r(&self) -> String {
+        coq_crow(&self.r)
+    }
     fn coq_m(&self) -> String {
         format!("({}, {})", cobs(&self.m.0), cdump(&self.m.1))
     }
@@ -228,7 +257,8 @@ impl Rows {
                "redb": [sobs(&self.d.0), self.d.1.iter().map(skvv).collect::<Vec<_>>(),
                         self.d.2.as_ref().map(|v| v.iter().map(|x| x.map(|n| n.to_string()).unwrap_or("-".into())).collect::<Vec<_>>())],
                "cloud": [sobs(&self.c.0), self.c.1.iter().map(skvv).collect::<Vec<_>>(),
-                         self.c.2.as_ref().map(|v| v.iter().map(|x| x.as_ref().map(|(n, b)| format!("@{}={}", n, sval(b))).unwrap_or("-".into())).collect::<Vec<_>>())]})
+                         self.c.2.as_ref().map(|v| v.iter().map(|x| x.as_ref().map(|(n, b)| format!("@{}={}", n, sval(b))).unwrap_or("-".into())).collect::<Vec<_>>())],
+               "cloud_on_redb": json_crow(&self.r)})
     }
 }
 
@@ -249,14 +279,22 @@ struct Monitor {
     max_d: BTreeMap<String, u64>,
     last_m: BTreeMap<String, (Option<u64>, Vec<u8>)>,
     last_d: BTreeMap<String, (Option<u64>, Vec<u8>)>,
+    plain_dead: bool,
+    /// ghost state of the two cloud stores: [0] on memory, [1] on redb with restarts
+    cg: [CloudGhost; 2],
+    findings: Vec<Finding>,
+}
+
+#[derive(Clone, Default)]
+struct CloudGhost {
     max_local: BTreeMap<String, u64>,
     max_vis: BTreeMap<String, u64>,
+    /// highest version of each key in any record list the store accepted through put_batch_unlogged
+    told: BTreeMap<String, u64>,
     in_txn: bool,
     cloud_dead: bool,
-    plain_dead: bool,
     reported: Option<Vec<Kvv>>,
     writes_since_report: bool,
-    findings: Vec<Finding>,
 }
 
 fn find<'a>(d: &'a [Kvv], k: &str) -> Option<&'a Kvv> {
@@ -321,7 +359,7 @@ impl Monitor {
                     self.flag("refused-write-changed-store", format!("{}: {}", which, sop(op)));
                 }
             }
-            Op::Batch(l) => {
+            Op::Batch(l) | Op::Unlogged(l) => {
                 if ok {
                     for e in l {
                         if let Some(b) = find(before, &e.0) {
@@ -381,41 +419,54 @@ impl Monitor {
         }
     }
 
-    fn cloud(&mut self, op: &Op, probe: &[String], before: &Rows, after: &Rows) {
-        let obs = &after.c.0;
-        let (lb, la) = (&before.c.1, &after.c.1);
+    fn cloud(&mut self, which: usize, op: &Op, probe: &[String], before: &Rows, after: &Rows) {
+        let (bc, ac) = if which == 0 { (&before.c, &after.c) } else { (&before.r, &after.r) };
+        let name = if which == 0 { "cloud" } else { "cloud on redb" };
+        let mut g = std::mem::take(&mut self.cg[which]);
+        let obs = &ac.0;
+        let (lb, la) = (&bc.1, &ac.1);
+        if which == 1 && *op == Op::Reopen {
+            // a restart: the open transaction is gone, the local store must not be
+            if lb != la {
+                self.flag("restart-changed-local-store", name.into());
+            }
+            g.in_txn = false;
+            g.cloud_dead = false;
+            g.reported = None;
+            g.max_vis.clear();
+        }
         if *obs == Obs::Abort {
             // every panic of the cloud store but the arithmetic one leaves the log mutex poisoned
-            self.cloud_dead = true;
+            g.cloud_dead = true;
         }
         // the local store changes only by commit
-        if lb != la && *op != Op::Commit {
-            self.flag("local-changed-outside-commit", format!("cloud: {}", sop(op)));
+        if lb != la && *op != Op::Commit && !matches!(op, Op::Unlogged(_)) {
+            self.flag("local-changed-outside-commit", format!("{}: {}", name, sop(op)));
         }
         // never lowers a version: the local store ...
-        let maxl: Vec<(String, u64)> = self.max_local.iter().map(|(k, v)| (k.clone(), *v)).collect();
+        let maxl: Vec<(String, u64)> = g.max_local.iter().map(|(k, v)| (k.clone(), *v)).collect();
         for (k, mv) in maxl {
             match find(la, &k) {
-                None => self.flag("key-vanished", format!("cloud local: {}", skey(&k))),
-                Some(e) if e.1 < mv => self.flag("version-decreased", format!("cloud local: {} {} -> {}", skey(&k), mv, e.1)),
+                None => self.flag("key-vanished", format!("{} local: {}", name, skey(&k))),
+                Some(e) if e.1 < mv => self.flag("version-decreased", format!("{} local: {} {} -> {}", name, skey(&k), mv, e.1)),
                 _ => {}
             }
         }
         for e in la {
-            let m = self.max_local.entry(e.0.clone()).or_insert(e.1);
+            let m = g.max_local.entry(e.0.clone()).or_insert(e.1);
             if e.1 > *m {
                 *m = e.1;
             }
         }
         // ... and what a transaction sees by key
-        if let Some(view) = &after.c.2 {
+        if let Some(view) = &ac.2 {
             for (k, x) in probe.iter().zip(view.iter()) {
                 // the last-writer record is the store's own: prepare drops it from an otherwise
                 // empty log by design; its version is watched in the local store only
                 if k == "_WRITER" {
                     continue;
                 }
-                let seen = self.max_vis.get(k).copied();
+                let seen = g.max_vis.get(k).copied();
                 match (seen, x) {
                     (Some(mv), None) => self.flag("cloud-version-lowered", format!("{} had visible version {}, now absent after {}", skey(k), mv, sop(op))),
                     (Some(mv), Some((v, _))) if *v < mv =>
@@ -423,7 +474,7 @@ impl Monitor {
                     _ => {}
                 }
                 if let Some((v, _)) = x {
-                    let m = self.max_vis.entry(k.clone()).or_insert(*v);
+                    let m = g.max_vis.entry(k.clone()).or_insert(*v);
                     if *v > *m {
                         *m = *v;
                     }
@@ -433,22 +484,76 @@ impl Monitor {
         match op {
             Op::Enter => {
                 if *obs == Obs::Unit {
-                    self.in_txn = true;
-                    self.reported = None;
-                    self.writes_since_report = false;
+                    g.in_txn = true;
+                    g.reported = None;
+                    g.writes_since_report = false;
                 }
             }
             Op::Prepare => {
                 if let Obs::List(l) = obs {
-                    self.reported = Some(l.clone());
-                    self.writes_since_report = false;
+                    g.reported = Some(l.clone());
+                    g.writes_since_report = false;
+                }
+            }
+            Op::Unlogged(l) => {
+                g.writes_since_report = true;
+                if *obs == Obs::Unit {
+                    // every record of the list, tombstones included, is now in the local store
+                    let mut lastof: BTreeMap<String, (u64, Vec<u8>)> = BTreeMap::new();
+                    for e in l {
+                        lastof.insert(e.0.clone(), (e.1, e.2.clone()));
+                    }
+                    for (k, (v, x)) in &lastof {
+                        match find(la, k) {
+                            Some(e) if e.1 == *v && e.2 == *x => {}
+                            other => self.flag(
+                                "restore-record-missing",
+                                format!("{}: {} accepted, the local store holds {} for {}", name, sop(op),
+                                        other.map(skvv).unwrap_or("nothing".into()), skey(k)),
+                            ),
+                        }
+                    }
+                    // a record below a version this store was told before is a replay
+                    for e in l {
+                        if let Some(t) = g.told.get(&e.0) {
+                            if e.1 < *t {
+                                self.flag(
+                                    "restore-replay-accepted",
+                                    format!("{}: {} accepted although {} was restored at version {} before", name, sop(op), skey(&e.0), t),
+                                );
+                            }
+                        }
+                    }
+                    for e in l {
+                        let m = g.told.entry(e.0.clone()).or_insert(e.1);
+                        if e.1 > *m {
+                            *m = e.1;
+                        }
+                    }
+                } else if lb != la {
+                    self.flag("restore-not-atomic", format!("{}: {} not accepted but the local store changed", name, sop(op)));
                 }
             }
             Op::Put(..) | Op::PutV(..) | Op::Delete(..) | Op::Batch(..) => {
-                self.writes_since_report = true;
+                g.writes_since_report = true;
+                if *obs == Obs::Unit {
+                    let entries: Vec<(String, u64)> = match op {
+                        Op::PutV(k, ver, _) => vec![(k.clone(), *ver)],
+                        Op::Batch(l) => l.iter().map(|e| (e.0.clone(), e.1)).collect(),
+                        _ => vec![],
+                    };
+                    for (k, ver) in entries {
+                        if g.told.get(&k).map(|t| ver < *t).unwrap_or(false) {
+                            self.flag(
+                                "write-below-restored-version",
+                                format!("{}: {} accepted although {} was restored at version {}", name, sop(op), skey(&k), g.told[&k]),
+                            );
+                        }
+                    }
+                }
                 // read your own writes by key
                 if *obs == Obs::Unit {
-                    if let Some(view) = &after.c.2 {
+                    if let Some(view) = &ac.2 {
                         let writes: Vec<(String, Option<u64>, Vec<u8>)> = match op {
                             Op::Put(k, v) => vec![(k.clone(), None, v.clone())],
                             Op::Delete(k) => vec![(k.clone(), None, vec![])],
@@ -481,9 +586,9 @@ impl Monitor {
                             self.flag("commit-not-atomic", "commit refused but the local store changed".into());
                         }
                     } else {
-                        let reported = self.reported.clone().unwrap_or_default();
+                        let reported = g.reported.clone().unwrap_or_default();
                         if delta != reported || removed {
-                            let clean = self.reported.is_some() && !self.writes_since_report;
+                            let clean = g.reported.is_some() && !g.writes_since_report;
                             self.findings.push(Finding {
                                 kind: "committed-differs-from-reported",
                                 step: self.step,
@@ -491,17 +596,17 @@ impl Monitor {
                                     "committed [{}] reported [{}]{}",
                                     delta.iter().map(skvv).collect::<Vec<_>>().join(", "),
                                     reported.iter().map(skvv).collect::<Vec<_>>().join(", "),
-                                    if self.reported.is_none() { " (no prepare in this transaction)" } else { "" }
+                                    if g.reported.is_none() { " (no prepare in this transaction)" } else { "" }
                                 ),
                                 window_clean: clean,
                             });
                         }
                     }
-                    self.in_txn = false;
-                    self.reported = None;
+                    g.in_txn = false;
+                    g.reported = None;
                     // a committed transaction leaves the local store at what it saw
-                    if !self.cloud_dead && *obs == Obs::Unit {
-                        let vis: Vec<(String, u64)> = self.max_vis.iter().map(|(k, v)| (k.clone(), *v)).collect();
+                    if !g.cloud_dead && *obs == Obs::Unit {
+                        let vis: Vec<(String, u64)> = g.max_vis.iter().map(|(k, v)| (k.clone(), *v)).collect();
                         for (k, mv) in vis {
                             match find(la, &k) {
                                 Some(e) if e.1 >= mv => {}
@@ -513,6 +618,7 @@ impl Monitor {
             }
             _ => {}
         }
+        self.cg[which] = g;
     }
 
     fn observe(&mut self, op: &Op, probe: &[String], before: &Rows, after: &Rows) {
@@ -543,12 +649,14 @@ impl Monitor {
                 self.flag("reopen-changed-contents", "redb".into());
             }
         }
-        self.cloud(op, probe, before, after);
+        self.cloud(0, op, probe, before, after);
+        self.cloud(1, op, probe, before, after);
+        // both cloud stores answer alike between restarts (the model covers each separately)
         self.step += 1;
     }
 
     fn ghost(&self) -> String {
-        format!("{}|{}|{:?}|{}", self.in_txn, self.cloud_dead, self.reported, self.writes_since_report)
+        self.cg.iter().map(|g| format!("{}|{}|{:?}|{}|{:?}", g.in_txn, g.cloud_dead, g.reported, g.writes_since_report, g.told)).collect::<Vec<_>>().join("#")
     }
 }
 
@@ -557,6 +665,10 @@ struct Sys {
     dir: tempfile::TempDir,
     redb: Option<RedbKVVStore>,
     cloud: CloudKVVStore<MemoryKVVStore>,
+    rdir: tempfile::TempDir,
+    rcloud: Option<CloudKVVStore<RedbKVVStore>>,
+    rsid: Vec<u8>,
+    r_in_txn: bool,
     probe: Vec<String>,
     in_txn: bool,
     last: Rows,
@@ -567,21 +679,37 @@ impl Sys {
     fn new(probe: &[String]) -> Sys {
         let dir = tempfile::Builder::new().prefix("verif-kvv").tempdir_in(shm()).expect("tempdir");
         let redb = RedbKVVStore::new(dir.path());
+        let rdir = tempfile::Builder::new().prefix("verif-kvvc").tempdir_in(shm()).expect("tempdir");
+        let rlocal = RedbKVVStore::new(rdir.path());
+        let rsid = rlocal.signer_id().to_vec();
         let mut s = Sys {
             mem: MemoryKVVStore::new(SID),
             dir,
             redb: Some(redb),
             cloud: CloudKVVStore::new(MemoryKVVStore::new(SID)),
+            rdir,
+            rcloud: Some(CloudKVVStore::new(rlocal)),
+            rsid,
+            r_in_txn: false,
             probe: probe.to_vec(),
             in_txn: false,
-            last: Rows { m: (Obs::Unit, vec![]), d: (Obs::Unit, vec![], None), c: (Obs::Unit, vec![], None) },
+            last: Rows { m: (Obs::Unit, vec![]), d: (Obs::Unit, vec![], None), c: (Obs::Unit, vec![], None), r: (Obs::Unit, vec![], None) },
             mon: Monitor::default(),
         };
-        s.last = s.rows(Obs::Unit, Obs::Unit, Obs::Unit);
+        s.last = s.rows(Obs::Unit, Obs::Unit, Obs::Unit, Obs::Unit);
         s
     }
 
-    fn rows(&mut self, om: Obs, od: Obs, oc: Obs) -> Rows {
+    /// the redb directory has a random signer id (the value of the last-writer record): shown as SID
+    fn canon(&self, v: Vec<u8>) -> Vec<u8> {
+        if v == self.rsid {
+            SID.to_vec()
+        } else {
+            v
+        }
+    }
+
+    fn rows(&mut self, om: Obs, od: Obs, oc: Obs, or: Obs) -> Rows {
         let redb = self.redb.as_ref().unwrap();
         // get_version of every probe key; any panic = the cache mutex is poisoned
         let mut dview = Some(vec![]);
@@ -612,7 +740,31 @@ impl Sys {
                 cview = Some(v);
             }
         }
-        Rows { m: (om, dump(&self.mem)), d: (od, dump(redb), dview), c: (oc, dump(&self.cloud), cview) }
+        let rcloud = self.rcloud.as_ref().unwrap();
+        let mut rview = None;
+        if self.r_in_txn {
+            let mut v = vec![];
+            let mut ok = true;
+            for k in &self.probe {
+                match apply(rcloud, &Op::Get(k.clone())) {
+                    Obs::Val(x) => v.push(x.map(|(n, b)| (n, self.canon(b)))),
+                    _ => {
+                        ok = false;
+                        break;
+                    }
+                }
+            }
+            if ok {
+                rview = Some(v);
+            }
+        }
+        let rdump: Vec<Kvv> = dump(rcloud).into_iter().map(|(k, n, b)| (k, n, self.canon(b))).collect();
+        let or = match or {
+            Obs::List(l) => Obs::List(l.into_iter().map(|(k, n, b)| (k, n, self.canon(b))).collect()),
+            Obs::Val(Some((n, b))) => Obs::Val(Some((n, self.canon(b)))),
+            o => o,
+        };
+        Rows { m: (om, dump(&self.mem)), d: (od, dump(redb), dview), c: (oc, dump(&self.cloud), cview), r: (or, rdump, rview) }
     }
 
     fn step(&mut self, op: &Op) -> Rows {
@@ -631,7 +783,22 @@ impl Sys {
             Op::Commit if oc != Obs::Abort => self.in_txn = false,
             _ => {}
         }
-        let rows = self.rows(om, od, oc);
+        // the disk-backed cloud store: a reopen point is a signer restart
+        let or = if *op == Op::Reopen {
+            let path = self.rdir.path().to_path_buf();
+            drop(self.rcloud.take());
+            self.rcloud = Some(CloudKVVStore::new(RedbKVVStore::new(&path)));
+            self.r_in_txn = false;
+            Obs::Unit
+        } else {
+            apply(self.rcloud.as_ref().unwrap(), op)
+        };
+        match op {
+            Op::Enter if or == Obs::Unit => self.r_in_txn = true,
+            Op::Commit if or != Obs::Abort => self.r_in_txn = false,
+            _ => {}
+        }
+        let rows = self.rows(om, od, oc, or);
         let before = std::mem::replace(&mut self.last, rows.clone());
         let probe = self.probe.clone();
         self.mon.observe(op, &probe, &before, &rows);
@@ -639,7 +806,8 @@ impl Sys {
     }
 
     fn fingerprint(&self) -> String {
-        format!("{:?}|{:?}|{:?}|{:?}|{:?}|{:?}|{}", self.last.m.1, self.last.d.1, self.last.d.2, self.last.c.1, self.last.c.2, self.in_txn, self.mon.ghost())
+        format!("{:?}|{:?}|{:?}|{:?}|{:?}|{:?}|{:?}|{:?}|{:?}|{}", self.last.m.1, self.last.d.1, self.last.d.2, self.last.c.1, self.last.c.2, self.in_txn,
+                self.last.r.1, self.last.r.2, self.r_in_txn, self.mon.ghost())
     }
 }
 
@@ -674,7 +842,7 @@ fn probe_of(ops: &[Op], extra: &[&str]) -> Vec<String> {
     for o in ops {
         match o {
             Op::Put(k, _) | Op::PutV(k, _, _) | Op::Delete(k) | Op::Get(k) | Op::GetVersion(k) => add(k),
-            Op::Batch(l) => {
+            Op::Batch(l) | Op::Unlogged(l) => {
                 for e in l {
                     add(&e.0)
                 }
@@ -701,11 +869,12 @@ fn emit_case(id: usize, c: &Case, profile: &str, stats: &mut Stats) {
     let rows_m = coq_list(&c.rows.iter().map(|r| r.coq_m()).collect::<Vec<_>>());
     let rows_d = coq_list(&c.rows.iter().map(|r| r.coq_d()).collect::<Vec<_>>());
     let rows_c = coq_list(&c.rows.iter().map(|r| r.coq_c()).collect::<Vec<_>>());
+    let rows_r = coq_list(&c.rows.iter().map(|r| r.coq_r()).collect::<Vec<_>>());
     let alts = coq_list(
-        &c.alts.iter().map(|(o, r)| format!("({}, {}, {}, {})", cop(o), r.coq_m(), r.coq_d(), r.coq_c())).collect::<Vec<_>>(),
+        &c.alts.iter().map(|(o, r)| format!("({}, {}, {}, {}, {})", cop(o), r.coq_m(), r.coq_d(), r.coq_c(), r.coq_r())).collect::<Vec<_>>(),
     );
     let coq = format!(
-        "(({}, {}, {}), {}, ({}, {}, {}), {})",
+        "(({}, {}, {}), {}, ({}, {}, {}, {}), {})",
         profile,
         bytes(&SID),
         coq_list(&c.probe.iter().map(|k| ckey(k)).collect::<Vec<_>>()),
@@ -713,14 +882,24 @@ fn emit_case(id: usize, c: &Case, profile: &str, stats: &mut Stats) {
         rows_m,
         rows_d,
         rows_c,
+        rows_r,
         alts
     );
     // classification for the coverage numbers
     let all_rows: Vec<(&Op, &Rows)> =
         c.prefix.iter().zip(c.rows.iter()).chain(c.alts.iter().map(|(o, r)| (o, r))).collect();
-    let is_write = |o: &Op| matches!(o, Op::Put(..) | Op::PutV(..) | Op::Batch(..) | Op::Delete(..));
+    let is_write = |o: &Op| matches!(o, Op::Put(..) | Op::PutV(..) | Op::Batch(..) | Op::Delete(..) | Op::Unlogged(..));
     let accepted = all_rows.iter().any(|(o, r)| is_write(o) && r.m.0 == Obs::Unit);
-    let refused = all_rows.iter().any(|(_, r)| r.m.0 == Obs::Err || r.c.0 == Obs::Err);
+    let refused = all_rows.iter().any(|(_, r)| r.m.0 == Obs::Err || r.c.0 == Obs::Err || r.r.0 == Obs::Err);
+    // a restore: an accepted record list holding a tombstone, and a later list refused on a cloud store
+    let restore_ok = all_rows.iter().any(|(o, r)| matches!(o, Op::Unlogged(l) if l.iter().any(|e| e.2.is_empty())) && r.r.0 == Obs::Unit);
+    let restore_refused = all_rows.iter().any(|(o, r)| matches!(o, Op::Unlogged(_)) && (r.r.0 == Obs::Err || r.c.0 == Obs::Err));
+    if restore_ok {
+        stats.with_tombstone_restore += 1;
+    }
+    if restore_ok && restore_refused {
+        stats.with_refused_replay += 1;
+    }
     let mut prev_local: &Vec<Kvv> = &vec![];
     let mut committed = false;
     for (o, r) in c.prefix.iter().zip(c.rows.iter()) {
@@ -740,7 +919,7 @@ fn emit_case(id: usize, c: &Case, profile: &str, stats: &mut Stats) {
     for (o, r) in all_rows.iter() {
         stats.steps += 1;
         *stats.ops.entry(sop(o).split(' ').next().unwrap().to_string()).or_insert(0) += 1;
-        for (b, x) in [("mem", &r.m.0), ("redb", &r.d.0), ("cloud", &r.c.0)] {
+        for (b, x) in [("mem", &r.m.0), ("redb", &r.d.0), ("cloud", &r.c.0), ("cloud_on_redb", &r.r.0)] {
             let kind = match x {
                 Obs::Unit | Obs::Val(_) | Obs::Ver(_) | Obs::List(_) => "ok",
                 Obs::Err => "version_mismatch",
@@ -790,6 +969,8 @@ struct Stats {
     nontrivial: u64,
     with_commit: u64,
     with_reopen: u64,
+    with_tombstone_restore: u64,
+    with_refused_replay: u64,
     ops: BTreeMap<String, u64>,
     results: BTreeMap<String, u64>,
 }
@@ -833,6 +1014,19 @@ fn corpus() -> Vec<Vec<Op>> {
         vec![Op::Enter, Op::Enter, Op::Put(s("a"), b("x")), Op::Commit],
         vec![Op::Commit, Op::Enter],
         vec![Op::Batch(vec![]), Op::GetPrefix(s("a")), Op::Prepare],
+        // the restore path: a fresh replica is handed a tombstone for a key it never saw; after a
+        // restart the older live copy must be refused, as must anything below or beside it
+        vec![Op::Unlogged(vec![(s("a"), 3, b("")), (s("b"), 0, b("x"))]), Op::Reopen,
+             Op::Unlogged(vec![(s("b"), 0, b("x")), (s("a"), 1, b("x"))]), Op::Unlogged(vec![(s("a"), 3, b(""))]),
+             Op::Unlogged(vec![(s("a"), 3, b("x"))]), Op::Enter, Op::PutV(s("a"), 2, b("y")), Op::PutV(s("a"), 3, b("")),
+             Op::Get(s("a")), Op::GetVersion(s("a")), Op::GetPrefix(s("")), Op::Prepare, Op::Commit, Op::Reopen,
+             Op::Unlogged(vec![(s("a"), 2, b("x"))]), Op::Unlogged(vec![(s("a"), 4, b("x"))]), Op::GetPrefix(s("a"))],
+        vec![Op::Unlogged(vec![(s("a"), 1, b(""))]), Op::Unlogged(vec![(s("a"), 0, b("x"))])],
+        vec![Op::Enter, Op::Put(s("a"), b("x")), Op::Delete(s("a")), Op::Prepare, Op::Commit, Op::Reopen,
+             Op::Unlogged(vec![(s("a"), 2, b("")), (s("b"), 5, b(""))]), Op::Unlogged(vec![(s("b"), 4, b("y"))]),
+             Op::Enter, Op::Get(s("b")), Op::Put(s("b"), b("y")), Op::Get(s("b")), Op::Prepare, Op::Commit],
+        vec![Op::Enter, Op::Unlogged(vec![(s("a"), 1, b(""))]), Op::Get(s("a"))],
+        vec![Op::Unlogged(vec![(s("a"), 2, b("")), (s("a"), 1, b("x"))]), Op::Unlogged(vec![]), Op::Unlogged(vec![(s("a"), 1, b("")), (s("a"), 2, b(""))]), Op::GetPrefix(s(""))],
         // prefixes and order
         vec![Op::Put(s("a/b"), b("x")), Op::Put(s("a"), b("x")), Op::Put(s("b"), b("y")), Op::Put(s("a0"), b("y")), Op::Put(s("a/"), b("y")),
              Op::GetPrefix(s("a")), Op::GetPrefix(s("a/")), Op::GetPrefix(s("a/b")), Op::GetPrefix(s("")), Op::GetPrefix(s("c")), Op::GetPrefix(s("a/b/c"))],
@@ -855,6 +1049,9 @@ fn mini_alphabet() -> Vec<Op> {
     v.push(Op::Batch(vec![(s("a"), 2, b("x")), (s("a"), 1, b("x"))]));
     v.push(Op::Batch(vec![(s("a"), 1, b("y")), (s("b"), 0, b("x"))]));
     v.push(Op::Batch(vec![(s("b"), 2, b("x")), (s("a"), 1, b("x")), (s("a"), 1, b("y"))]));
+    v.push(Op::Unlogged(vec![(s("a"), 2, b(""))]));
+    v.push(Op::Unlogged(vec![(s("a"), 1, b("x"))]));
+    v.push(Op::Unlogged(vec![(s("b"), 1, b("")), (s("a"), 0, b("y"))]));
     v.extend([Op::Get(s("a")), Op::GetVersion(s("a")), Op::GetPrefix(s("")), Op::Reopen, Op::Enter, Op::Prepare, Op::Commit]);
     v
 }
@@ -899,6 +1096,14 @@ fn alphabet(tier: &str) -> Vec<Op> {
     v.push(Op::Batch(vec![(s("a"), 2, b("x")), (s("a"), 1, b("x")), (s("a"), 2, b("x"))]));
     v.push(Op::Batch(vec![(s("a/b"), 0, b("x")), (s("a"), 0, b("x")), (s("b"), 0, b(""))]));
     v.push(Op::Batch(vec![(s("a"), 0, b("x")), (s("a"), 0, b("x")), (s("a"), 3, b("y"))]));
+    // record lists from external storage: tombstones and live records around each other
+    for k in k2 {
+        for (ver, x) in [(1u64, ""), (3, ""), (0, "x"), (2, "y")] {
+            v.push(Op::Unlogged(vec![(s(k), ver, b(x))]));
+        }
+    }
+    v.push(Op::Unlogged(vec![(s("a"), 2, b("")), (s(k2[1]), 1, b(""))]));
+    v.push(Op::Unlogged(vec![(s("a"), 1, b("x")), (s(k2[1]), 0, b("x"))]));
     for p in ["", "a", "a/", "b", "c"] {
         v.push(Op::GetPrefix(s(p)));
     }
@@ -1048,7 +1253,7 @@ fn gen_read(rng: &mut Rng, keys: &[&str]) -> Op {
 
 /// transaction-shaped histories: enter; writes and reads; prepare; reads; commit - with reopen
 /// points, and now and then a step off the protocol
-fn random_history(rng: &mut Rng, len: usize, wild: bool) -> Vec<Op> {
+fn random_history(rng: &mut Rng, len: usize, wild: bool, restore: bool) -> Vec<Op> {
     let keys: Vec<&str> = if wild {
         vec!["a", "a/b", "b", "", "a/", "_WRITER", "\u{e9}", "a\u{0}", "\u{10348}", "ab", "a0", "B"]
     } else if rng.chance(1, 12) {
@@ -1087,6 +1292,7 @@ fn random_history(rng: &mut Rng, len: usize, wild: bool) -> Vec<Op> {
                 1 => Op::Prepare,
                 2 => Op::Commit,
                 3 => Op::Reopen,
+                4 if rng.chance(1, 2) => Op::Unlogged(vec![(rng.pick(&keys).to_string(), rng.below(4), b(*rng.pick(&vals)))]),
                 4 | 5 | 6 => gen_read(rng, &keys),
                 _ => gen_write(rng, &keys, &vals, &cur),
             };
@@ -1096,6 +1302,42 @@ fn random_history(rng: &mut Rng, len: usize, wild: bool) -> Vec<Op> {
         }
         if rng.chance(1, 6) {
             ops.push(Op::Reopen);
+        }
+        if restore && rng.chance(2, 3) || rng.chance(1, 12) {
+            // start-up: a record list from external storage, versions around the current ones,
+            // tombstones mostly for keys this replica has not seen, older copies later on
+            let n = 1 + rng.below(3) as usize;
+            let mut l = vec![];
+            for _ in 0..n {
+                let k = rng.pick(&keys).to_string();
+                let known = cur.get(&k).copied();
+                let ver = match (known, rng.below(6)) {
+                    (None, 0..=2) => 1 + rng.below(4),
+                    (Some(c), 0) => c.saturating_sub(1 + rng.below(2)),
+                    (Some(c), 1) => c,
+                    (Some(c), _) => c.saturating_add(rng.below(3)),
+                    (None, _) => rng.below(3),
+                };
+                let x = if known.is_none() && rng.chance(2, 3) || rng.chance(1, 4) { b("") } else { b(*rng.pick(&vals)) };
+                l.push((k, ver, x));
+            }
+            let o = Op::Unlogged(l);
+            if let Op::Unlogged(l) = &o {
+                // steering only: remember what the stores were told if all of it is accepted
+                let fits = l.iter().all(|e| cur.get(&e.0).map(|c| e.1 >= *c).unwrap_or(true));
+                if fits {
+                    for e in l {
+                        cur.insert(e.0.clone(), e.1);
+                    }
+                }
+            }
+            ops.push(o);
+            if rng.chance(1, 2) {
+                ops.push(Op::Reopen);
+            }
+            if rng.chance(1, 2) {
+                continue;
+            }
         }
         ops.push(Op::Enter);
         let body = rng.below(5);
@@ -1135,7 +1377,7 @@ fn all(args: &Args) {
         cases.push(run_linear("corpus", &ops));
     }
     let n_corpus = cases.len();
-    let (depth, cap) = if quick { (3, 25) } else { (4, 300) };
+    let (depth, cap) = if quick { (3, 20) } else { (4, 250) };
     let depth = args.rest.iter().position(|a| a == "--depth").map(|i| args.rest[i + 1].parse().unwrap()).unwrap_or(depth);
     let cap = args.rest.iter().position(|a| a == "--cap").map(|i| args.rest[i + 1].parse().unwrap()).unwrap_or(cap);
     let exh = exhaustive(&args.tier, depth, cap, args.seed, &mut cases);
@@ -1146,9 +1388,10 @@ fn all(args: &Args) {
     let mut rng = Rng::new(args.seed ^ 0x16c);
     for i in 0..args.n {
         let wild = i % 5 == 4;
+        let restore = i % 5 == 1 || i % 5 == 3;
         let len = if quick { 6 + rng.below(18) as usize } else { 30 };
-        let ops = random_history(&mut rng, len, wild);
-        cases.push(run_linear(if wild { "malformed" } else { "random" }, &ops));
+        let ops = random_history(&mut rng, len, wild, restore);
+        cases.push(run_linear(if wild { "malformed" } else if restore { "restore" } else { "random" }, &ops));
     }
     let mut kinds: BTreeMap<String, u64> = BTreeMap::new();
     for (i, c) in cases.iter().enumerate() {
@@ -1162,6 +1405,7 @@ fn all(args: &Args) {
         json!({"profile": profile, "cases": stats.cases, "steps": stats.steps, "nontrivial": stats.nontrivial,
                "corpus": n_corpus, "exhaustive_cases": n_exh, "random": args.n, "exhaustive": exh, "exhaustive_small": mini,
                "with_effective_commit": stats.with_commit, "with_reopen_after_write": stats.with_reopen,
+               "with_tombstone_restore": stats.with_tombstone_restore, "with_refused_replay": stats.with_refused_replay,
                "requests": stats.ops, "results": stats.results, "monitor_findings": kinds}),
     );
 }
@@ -1172,7 +1416,7 @@ fn replay(args: &Args) {
     let _ = args;
     for ops in corpus() {
         let c = run_linear("corpus", &ops);
-        println!("{}", c.prefix.iter().zip(c.rows.iter()).map(|(o, r)| format!("{:<40} mem {:<22} redb {:<22} cloud {}", sop(o), sobs(&r.m.0), sobs(&r.d.0), sobs(&r.c.0))).collect::<Vec<_>>().join("\n"));
+        println!("{}", c.prefix.iter().zip(c.rows.iter()).map(|(o, r)| format!("{:<40} mem {:<22} redb {:<22} cloud {:<22} cloud/redb {}", sop(o), sobs(&r.m.0), sobs(&r.d.0), sobs(&r.c.0), sobs(&r.r.0))).collect::<Vec<_>>().join("\n"));
         for (_, f) in &c.findings {
             println!("   !! step {} {}: {}", f.step, f.kind, f.detail);
         }
